@@ -38,22 +38,27 @@ TFNAME = {1: '1m', 3: '3m', 5: '5m', 15: '15m', 30: '30m', 45: '45m', 60: '1h', 
 
 
 def cfg(inst, q, export):
-    tfs, trade, warm, n, fast, chunk = inst
+    tfs, trade, warm, n, fast, chunk = inst           # chunk: what the model derives itself (gcd of all route timeframes)
     t = lambda b: "TRUE" if b else "FALSE"
+    q = tuple(q) + (False,) * (4 - len(q))
     return ("SPECIFICATION %s\nVIEW View\nCHECK_DEADLOCK FALSE\n" % ("Spec" if export else "SpecM") +
-            "CONSTANTS TFs = {%s} TradeTF = %d Warm = %d N = %d MaxFills = 2 Fast = %s Chunk = %d\n"
-            "QStale = %s QEmptyRead = %s QPartialChunk = %s Export = %s\n"
-            % (",".join(map(str, tfs)), trade, warm, n, t(fast), chunk, t(q[0]), t(q[1]), t(q[2]), t(export))
+            "CONSTANTS TFs = {%s} TradeTF = %d Warm = %d N = %d MaxFills = 2 Fast = %s\n"
+            "QStale = %s QEmptyRead = %s QPartialChunk = %s QChunkTrading = %s Export = %s\n"
+            % (",".join(map(str, tfs)), trade, warm, n, t(fast), t(q[0]), t(q[1]), t(q[2]), t(q[3]), t(export))
             + ("" if export else "".join("INVARIANT %s\n" % i for i in INVS)))
 
 
 def instances(ctx):
     # (TFs, TradeTF, Warm, N, Fast, Chunk)
+    # data routes coarser than / finer than / not a multiple of the trading timeframe, both simulators
     q = [((3, 5), 1, 0, 11, False, 1), ((3, 5), 1, 15, 11, False, 1), ((3, 15), 3, 15, 20, False, 1),
-         ((3, 15), 3, 15, 20, True, 3), ((5, 15), 5, 0, 15, True, 5), ((3, 5), 1, 15, 11, True, 1)]
+         ((3, 15), 3, 15, 20, True, 3), ((5, 15), 5, 0, 15, True, 5), ((3, 5), 1, 15, 11, True, 1),
+         ((3, 15), 15, 15, 33, True, 3), ((3, 5), 5, 15, 17, True, 1), ((3, 15), 15, 0, 33, False, 1),
+         ((5, 15), 15, 0, 35, True, 5)]
     t = q + [((5, 15, 60), 1, 60, 130, False, 1), ((5, 15, 60), 5, 0, 127, False, 1), ((15, 60), 15, 60, 200, True, 15),
              ((15, 45), 15, 45, 100, True, 15), ((30, 45), 30, 90, 100, True, 15), ((3, 5, 15), 1, 0, 47, True, 1),
-             ((5, 30), 5, 30, 64, True, 5), ((3, 45), 3, 0, 50, True, 3)]
+             ((5, 30), 5, 30, 64, True, 5), ((3, 45), 3, 0, 50, True, 3), ((15, 45, 60), 60, 180, 250, True, 15),
+             ((30, 45), 45, 90, 200, True, 15), ((5, 15, 30), 30, 30, 64, True, 5), ((3, 5, 15), 15, 15, 47, False, 1)]
     return ctx.pick(q, t)
 
 
@@ -104,6 +109,9 @@ ROUTESETS = [
     ('1m', ['5m', '15m']), ('5m', ['15m']), ('3m', ['15m', '1m']), ('15m', ['1h']), ('1m', ['3m']),
     ('1m', ['30m', '45m']), ('5m', ['1h', '4h']), ('3m', ['45m']), ('1m', ['2h', '3h']), ('15m', ['6h']),
     ('1h', ['4h']), ('30m', ['2h']), ('5m', []), ('45m', ['3h']), ('4h', ['8h', '12h']),
+    # data routes FINER than the trading timeframe (divisors), not multiples of it, mixed; two trading timeframes
+    ('15m', ['5m']), ('1h', ['45m']), ('1h', ['15m']), ('45m', ['30m']), ('5m', ['3m']), ('30m', ['45m']),
+    ('15m', ['5m', '1h']), ('4h', ['1h', '45m']), ('15m', [], '5m'), ('1h', ['15m'], '45m'), ('3m', ['1m']),
 ]
 BIGSETS = [('1m', ['1D']), ('2h', ['1D']), ('15m', ['12h', '1D'])]
 
@@ -119,16 +127,18 @@ def random_cases(ctx, rng, n_cases, first_id):
     from ..drivers.candle_runs import TFMIN, chunk_of
     cases = []
     for c in range(n_cases):
-        ttf, dtfs = ROUTESETS[c % len(ROUTESETS)] if c < 3 * len(ROUTESETS) else rng.choice(ROUTESETS)
-        if c % 50 in (16, 41):
-            ttf, dtfs = BIGSETS[(c // 25) % len(BIGSETS)]
-        two = (c % 5 == 4) and TFMIN[ttf] <= 15
-        trading = [(B, ttf)] + ([(E, ttf)] if two else [])
+        rs = ROUTESETS[c % len(ROUTESETS)] if c < 4 * len(ROUTESETS) else rng.choice(ROUTESETS)
+        if c % 54 in (16, 43):
+            rs = BIGSETS[(c // 27) % len(BIGSETS)]
+        ttf, dtfs = rs[0], rs[1]
+        other = rs[2] if len(rs) > 2 else None            # a second symbol traded on another timeframe
+        two = other is None and (c % 5 == 4) and TFMIN[ttf] <= 15
+        trading = [(B, ttf)] + ([(E, ttf)] if two else []) + ([(E, other)] if other else [])
         data = [(B, t) for t in dtfs] + ([(E, dtfs[0])] if two and dtfs else [])
-        mins = [TFMIN[ttf]] + [TFMIN[t] for t in dtfs]
+        mins = [TFMIN[ttf]] + [TFMIN[t] for t in dtfs] + ([TFMIN[other]] if other else [])
         L = lcm(mins)
         big = max(mins)
-        W = 0 if c % 3 == 0 else L * rng.choice([1, 1, 2])
+        W = 0 if (c + c // len(ROUTESETS)) % 3 == 0 else L * rng.choice([1, 1, 2])
         if big >= 720:
             N = big + rng.randint(1, 400)
             W = 0 if c % 2 else L
@@ -138,11 +148,11 @@ def random_cases(ctx, rng, n_cases, first_id):
             N = rng.randint(max(8, big // 2), 5 * big + 40)
         if c % 4 == 3:
             N = max(TFMIN[ttf], (N // TFMIN[ttf]) * TFMIN[ttf])       # some lengths ARE multiples of the trading timeframe
-        fast = (c % 2 == 1)
+        fast = ((c // len(ROUTESETS)) % 2 == 1) if c < 4 * len(ROUTESETS) else (c % 2 == 1)   # every route set in both simulators
         every = 1 if (W + N) <= 400 else max(1, (W + N) // 150)
         if TFMIN[ttf] > 1:
             every = 1
-        steps = max(1, (N // TFMIN[ttf]))
+        steps = max(1, (N // min(TFMIN[ttf], TFMIN[other] if other else 10 ** 9)))
         case = dict(id=first_id + c, fast=fast, syms=sorted({s for s, _ in trading + data}), trading=trading, data=data,
                     W=W, N=N, seed=ctx.seed * 100003 + c,
                     policy=dict(seed=ctx.seed * 7919 + c, p_edit_on_reduced=0, entry_every=rng.choice([3, 5, 7]),
@@ -154,6 +164,25 @@ def random_cases(ctx, rng, n_cases, first_id):
         case['chunk'] = chunk_of(case)
         cases.append(case)
     return cases
+
+
+def route_classes(case):
+    """combination classes of trading / data timeframes of a case (coverage + vacuity only)"""
+    from ..drivers.candle_runs import TFMIN
+    cls = set()
+    ttfs = {TFMIN[tf] for _, tf in case['trading']}
+    if len(ttfs) > 1:
+        cls.add('two-trading-timeframes')
+    if not case['data']:
+        cls.add('no-data-route')
+    for s, d in case['data']:
+        t = [TFMIN[tf] for x, tf in case['trading'] if x == s][0]
+        d = TFMIN[d]
+        cls.add('data-coarser-multiple' if d % t == 0 else ('data-finer-divisor' if t % d == 0 else 'data-not-a-multiple'))
+    return cls
+
+
+CLASSES = ['no-data-route', 'data-coarser-multiple', 'data-finer-divisor', 'data-not-a-multiple', 'two-trading-timeframes']
 
 
 def _run(case):
@@ -238,12 +267,14 @@ def run(ctx):
         fast = inst[4]
         last = -(-inst[3] // inst[5]) * inst[5]               # end of the last (shorter) chunk
         partial = fast and inst[3] % inst[5] != 0 and any(last % T == 0 for T in inst[0])
-        variants = [("repaired", (False, False, False)), ("as-code", (True, True, True))]
+        variants = [("repaired", (False, False, False)), ("as-code", (True, True, True))]     # "as-code": as before 75ff7bf2/f8ad570d
         variants += [("stale-only", (True, False, False))]
-        if inst[2] == 0:
+        if inst[2] == 0 and any(T > inst[1] for T in inst[0]):
             variants += [("emptyread-only", (False, True, False))]
         if partial:
             variants += [("partialchunk-only", (False, False, True))]
+        if fast and any(T % inst[1] != 0 for T in inst[0]):
+            variants += [("chunk-of-trading-routes-only", (False, False, False, True))]
         for name, q in variants:
             jobs.append(dict(module="CandleStore", cfg_text=cfg(inst, q, False), workers=1, coverage=(name == "repaired"),
                              timeout=900))
@@ -320,6 +351,14 @@ def run(ctx):
                 break
     samples.append({"kind": "helper", "events": helpers[1]['ev'][:2]})
     tfs_read = sorted({e['T'] for t in traces for e in t['ev'] if e['k'] == 'read'})
+    rclasses = {m: {c: 0 for c in CLASSES} for m in ('step', 'fast')}
+    for t in traces:
+        for c in route_classes(t['case']):
+            rclasses[t['hdr']['mode']][c] += 1
+    for m in rclasses:
+        for c, k in rclasses[m].items():
+            if k == 0:
+                raise Machinery("vacuity: no %s-simulator run with route class %s" % (m, c))
     # coverage only (TLC accepts either form): how gapping minutes were stored, per simulator
     gaps = {"step": [0, 0], "fast": [0, 0]}
     for t in traces:
@@ -341,13 +380,15 @@ def run(ctx):
         "runs_with_length_not_multiple_of_trading_tf": sum(
             1 for t in traces if t['hdr']['N'] % CR.TFMIN[t['hdr']['routes'][0].split(':')[1]] != 0),
         "runs_ending_in_exception": sum(1 for t in traces if t['hdr']['exc'] != 'none'),
-        "timeframes_read_minutes": tfs_read,
+        "timeframes_read_minutes": tfs_read, "runs_per_simulator_and_route_class": rclasses,
         "gapping_minutes_stored_raw_vs_normalised": {m: {"raw": g[0], "normalised": g[1]} for m, g in gaps.items()}, "rejected_clauses": {k: len(v) for k, v in seen.items()},
         "trace_events_checked_by_tlc": sum(r.generated for r in results), "samples": samples,
         "rule": "R: one backtest per maximal shortest witness of the transitions of CandleStore.tla (as-the-code constants), "
                 "scripted fill pattern; T: random policy backtests. A case is non-trivial when a timeframe > 1m was read "
                 "while forming and at least one mid-candle fill happened; distinct by (simulator, routes, data routes, "
-                "warm-up on/off, set of fill minutes).",
+                "warm-up on/off, set of fill minutes). Route sets cycle through every combination class (no data route, data "
+                "coarser multiple, data finer divisor, data not a multiple of the trading timeframe, two trading timeframes) "
+                "in both simulators.",
         "exhaustive": False,
     })
 
